@@ -82,11 +82,12 @@ fn run_case(mask: u32, order: u32, reps: u32, nmod: usize, nsmb: usize, ncust: u
         b = b2;
         single.push((i, image));
         if im < nmod { let start = 0x9000 - 0x1000 * im as u32; let t = ModuleTag::new(start, start + 0x800, if im % 2 == 0 { "m" } else { "module two" }); mods.push(img(&*t)); b = b.add_module(t); im += 1; }
-        if is < nsmb { let t = SmbiosTag::new(is as u8, 1, &[1, 2, 3, 4, 5][..(1 + is)]); smbs.push(img(&*t)); b = b.add_smbios(t); is += 1; }
+        // SMBIOS tags in an order that is NOT sorted by (size, major, minor, tables), with one byte-identical duplicate
+        if is < nsmb { let t = SmbiosTag::new(9 - (is % 2) as u8 * 9, 1, &[1, 2, 3, 4, 5][..(3 - is % 2 * 2)]); smbs.push(img(&*t)); b = b.add_smbios(t); is += 1; }
         if ic < ncust { let t = multiboot2_common::new_boxed::<DynSizedStructure<TagHeader>>(TagHeader::new(TagType::Custom(0x1337), 0), &[&[ic as u8; 5][..(ic + 1)]]); custs.push(img(&*t)); b = b.add_custom_tag(t); ic += 1; }
     }
     while im < nmod { let start = 0x9000 - 0x1000 * im as u32; let t = ModuleTag::new(start, start + 0x800, "late"); mods.push(img(&*t)); b = b.add_module(t); im += 1; }
-    while is < nsmb { let t = SmbiosTag::new(is as u8, 1, &[9, 9, 9][..]); smbs.push(img(&*t)); b = b.add_smbios(t); is += 1; }
+    while is < nsmb { let t = SmbiosTag::new(9 - (is % 2) as u8 * 9, 1, &[1, 2, 3, 4, 5][..(3 - is % 2 * 2)]); smbs.push(img(&*t)); b = b.add_smbios(t); is += 1; }
     while ic < ncust { let t = multiboot2_common::new_boxed::<DynSizedStructure<TagHeader>>(TagHeader::new(TagType::Custom(0x1337), 0), &[&[0xC0u8; 3][..]]); custs.push(img(&*t)); b = b.add_custom_tag(t); ic += 1; }
 
     // expected walk: documented order
@@ -118,6 +119,14 @@ fn run_case(mask: u32, order: u32, reps: u32, nmod: usize, nsmb: usize, ncust: u
     for (k, (g, w)) in got.iter().zip(want.iter()).enumerate() {
         assert_eq!(g, w, "tag {k} differs: mask {mask:#x} order {order} reps {reps:#x} mods {nmod} smbios {nsmb} custom {ncust}");
     }
+    // the provided iterator methods agree with the walk (nth / skip / count)
+    for k in 0..=got.len() {
+        let at = info.tags().nth(k).map(|t| t.as_bytes()[..t.header().size as usize].to_vec());
+        assert_eq!(at.as_ref(), got.get(k), "tags().nth({k}) (mask {mask:#x})");
+        let sk = info.tags().skip(k).next().map(|t| t.as_bytes()[..t.header().size as usize].to_vec());
+        assert_eq!(sk.as_ref(), got.get(k), "tags().skip({k}).next() (mask {mask:#x})");
+    }
+    assert_eq!(info.tags().count(), got.len());
     // end tag is the final 8 bytes
     assert_eq!(&bytes[total - 8..], &[0u8, 0, 0, 0, 8, 0, 0, 0]);
 }
